@@ -170,6 +170,7 @@ func runC02(c *Ctx, tier string) {
 // every phi(...) group (loop variables) collapsed.
 func normExpr(e string) string {
 	e = strings.ReplaceAll(e, " ", "")
+	e = strings.ReplaceAll(e, "interface{}", "any") // the two spellings name one type
 	for {
 		i := strings.Index(e, "phi(")
 		if i < 0 {
@@ -247,7 +248,7 @@ func loadLedger() (map[string]*ledgerLine, int) {
 		if i < 0 {
 			fault("ledger/C02.txt: malformed line %q", trimStr(line, 80))
 		}
-		l := &ledgerLine{key: strings.TrimSpace(line[:i]), arg: strings.TrimSpace(line[i+4:])}
+		l := &ledgerLine{key: strings.ReplaceAll(strings.TrimSpace(line[:i]), "interface{}", "any"), arg: strings.TrimSpace(line[i+4:])}
 		parts := strings.SplitN(l.key, "|", 3)
 		if len(parts) != 3 {
 			fault("ledger/C02.txt: malformed key %q", trimStr(l.key, 80))
@@ -487,6 +488,13 @@ func c02Bounds(c *Ctx, r *Report) []*panicSite {
 		}
 		seen[key+m[4]] = true
 		nd, ok := byPos[key]
+		if filepath.IsAbs(m[1]) || strings.HasPrefix(m[1], "..") {
+			// a generic library function instantiated while compiling a module package
+			// (slices.Sort, maps.Keys …): library-internal check, outside the ledger's
+			// scope like every other library callee
+			out = append(out, &panicSite{class: "bounds", fn: "<library generic>", expr: m[1], posStr: "-", how: "bounds check inside a generic library function instantiated into the package (library-internal)", detail: line})
+			continue
+		}
 		if cn, isCall := callAt[key]; !ok && isCall {
 			how := "bounds check inside the inlined library function " + cn.callee + " (library-internal, guarded there)"
 			if cn.mod {
